@@ -254,3 +254,41 @@ func TestF14SwitchDuplicateNamesInsideObject(t *testing.T) {
 		t.Error("UnmarshalDecode returned nil for a method that read two values")
 	}
 }
+
+// F16: the "{}"/"[]" fast paths for empty maps and slices never consulted the depth limit:
+// 10001 nested containers whose innermost is empty marshaled without error.
+func TestF16DepthLimitEmptyInnermost(t *testing.T) {
+	for _, inner := range []any{[]any{}, map[string]any{}} {
+		v := inner
+		for i := 1; i < 10001; i++ {
+			v = []any{v}
+		}
+		out, err := json.Marshal(v)
+		if err == nil {
+			t.Errorf("Marshal of 10001 nested containers (innermost %T) returned nil error; IsValid(out)=%v", inner, jsontext.Value(out).IsValid())
+		}
+		v = inner
+		for i := 1; i < 10000; i++ {
+			v = []any{v}
+		}
+		if _, err := json.Marshal(v); err != nil {
+			t.Errorf("Marshal of 10000 nested containers failed: %v", err)
+		}
+	}
+	type M map[string]M
+	m := M{}
+	for i := 1; i < 10001; i++ {
+		m = M{"k": m}
+	}
+	if _, err := json.Marshal(m); err == nil {
+		t.Error("Marshal of 10001 nested typed maps (innermost empty) returned nil error")
+	}
+	type S []S
+	s := S{}
+	for i := 1; i < 10001; i++ {
+		s = S{s}
+	}
+	if _, err := json.Marshal(s); err == nil {
+		t.Error("Marshal of 10001 nested typed slices (innermost empty) returned nil error")
+	}
+}
